@@ -385,8 +385,8 @@ MT_SCEN_ARGS = {
     "heapdel":  (lambda r: ["--threads", r.choice([2, 3, 4]), "--rounds", r.choice([8, 16, 40])],                      lambda r: ["--threads", r.choice([3, 5, 8]), "--rounds", r.choice([400, 1500])]),
     "exit":     (lambda r: ["--threads", r.choice([2, 3, 4, 4]), "--ops", r.choice([40, 100, 200]), "--rounds", r.choice([2, 3, 5]), "--exit-mode", r.choice([0, 1, 2]), "--subprocs", r.choice([0, 0, 2])],
                  lambda r: ["--threads", r.choice([4, 6, 8]), "--ops", r.choice([3000, 8000]), "--rounds", r.choice([4, 8]), "--exit-mode", r.choice([0, 2]), "--subprocs", r.choice([0, 2])]),
-    "arena":    (lambda r: ["--threads", r.choice([2, 3, 4]), "--ops", r.choice([30, 60, 120]), "--arena-blocks", r.choice([96, 100, 128, 130, 160])],
-                 lambda r: ["--threads", r.choice([4, 6, 8]), "--ops", r.choice([400, 1500]), "--arena-blocks", r.choice([96, 100, 130, 160])]),
+    "arena":    (lambda r: ["--threads", r.choice([2, 3, 4]), "--ops", r.choice([30, 60, 120]), "--arena-blocks", r.choice([64, 96, 100, 128, 128, 130, 160, 192])],
+                 lambda r: ["--threads", r.choice([4, 6, 8]), "--ops", r.choice([400, 1500]), "--arena-blocks", r.choice([64, 96, 100, 128, 130, 160, 192])]),
 }
 MT_ENVS = {
     "xfree": [{}],
@@ -584,6 +584,8 @@ def c16(tier, seed):
 OPT_FORMS = ["1", "0", "true", "TRUE", "True", "yes", "no", "on", "off", "ON", "Off", "false", "", "rue", "E;Y", "o", "f",
              "5", "-1", "+7", "007", "  12", "\t3", "2147483647", "2147483648", "4294967296", "9223372036854775807", "9223372036854775808", "99999999999999999999", "-9223372036854775808", "-99999999999999999999",
              "1K", "1KiB", "1KB", "1kib", "2M", "2MiB", "2MB", "3G", "3GiB", "3gb", "4T", "4TiB", "1024", "1025", "1023", "100000T", "8388608G", "9007199254740993K", "18014398509481984M",
+             "18014398509481984M", "18014398509481985MiB", "18014398509481988Mb", "17592186044416G", "17592186044417GiB", "17592186044420Gb", "17179869184T", "17179869185TiB", "34359738372Tb", "17179869188T",
+             "9007199254740992K", "274877906944M", "268435456G", "262144T", "262145T",
              "1Ki", "1KiBx", "1 K", "K", "12abc", "0x10", "1e3", "1.5", "--1", "1-", "1,5", "12 ", "=1", "1=2", "\u00e9", "\u20ac1", "1\u20ac", "-", "+", " ", "tru e", "yes!", "0ff"]
 RISKY_OPTIONS = {"reserve_huge_os_pages", "reserve_huge_os_pages_at", "reserve_os_memory", "use_numa_nodes"}    # numeric values make the process reserve memory at start
 SAFE_FOR_RISKY = ["0", "no", "off", "false", "abc", "1x", "--", "zero"]
